@@ -72,9 +72,12 @@ let () =
          | "DUMP" -> dump (find w.(1))
          | "TEXT" -> ()
          | "TOKENS" ->
+             (* string tokens are printed as the bytes write(os, v, id) produces: quoted, quotes escaped *)
              let ts = print_registry (find w.(1)) in
              Printf.printf "TOK %d\n" (List.length ts);
-             List.iter (function Sy s -> Printf.printf "y %s\n" (string_of_cs s) | St s -> Printf.printf "t %s\n" (string_of_cs s)) ts
+             List.iter (function Sy s -> Printf.printf "y %s\n" (string_of_cs s)
+                               | St s -> Printf.printf "t \"%s\"\n" (string_of_cs (escape s))) ts
+         | "WF" -> Printf.printf "WF %d\n" (if wf_registry tc (find w.(1)) then 1 else 0)
          | "READ" ->
              (match read_registry tc (print_registry (find w.(2))) with
               | Some t -> Hashtbl.replace regs w.(1) (Some t); print_string "OK\n"
